@@ -235,7 +235,7 @@ theorem execCmd_good : (c : Cmd) → GoodRun (execCmd g esc call c)
     · exact Good.leaf (by simp) (Ext.of_heap_eq rfl rfl)
     · rename_i callee _
       split
-      · exact Good.leaf (by simp) (Ext.of_heap_eq rfl rfl)
+      · exact Good.leaf (by simp) ((noteImpossible_ext _ _ _ _).trans (Ext.atNode _ _ _) (fun _ _ h => h))
       · rename_i cd st1 hcd
         obtain ⟨e1, owncd, hfresh⟩ := callData_spec hcd
         have hp := execParams_good params cd ctx st1 owncd
